@@ -5,6 +5,7 @@ pub mod c02;
 pub mod c03;
 pub mod c04;
 pub mod c05;
+pub mod c06;
 pub mod c07;
 pub mod c08;
 pub mod c09;
@@ -30,6 +31,7 @@ pub fn all() -> Vec<Property> {
         Property { id: "C03", run: c03::run, replays: c03::replays },
         Property { id: "C04", run: c04::run, replays: c04::replays },
         Property { id: "C05", run: c05::run, replays: c05::replays },
+        Property { id: "C06", run: c06::run, replays: c06::replays },
         Property { id: "C07", run: c07::run, replays: c07::replays },
         Property { id: "C08", run: c08::run, replays: c08::replays },
         Property { id: "C09", run: c09::run, replays: c09::replays },
